@@ -830,7 +830,15 @@ fn judge(run: &Run, w: &'static World, c: &Case) -> CaseResult {
         "outside_tsa" => false,
         _ => true,
     };
-    let good = literal_good && tsa_ok;
+    // TSA-certificate classes with TSA trust switched off (setting, or v1 claim): the property demands neither
+    // acceptance nor rejection; the SDK's own answer (timeStamp.trusted or a failure code) selects which of the two
+    // complete rule sets the case is held to.
+    let tsa_cert_class = c.token.starts_with("no_eku") || c.token == "untrusted";
+    let sdk_took_it = o.has(&o.succ, "timeStamp.trusted") && !BAD_FAMILY.iter().any(|b| o.has(&o.info, b) || o.has(&o.fail, b));
+    let good = literal_good && if tsa_cert_class && !trust_on { sdk_took_it } else { tsa_ok };
+    if tsa_cert_class && !trust_on {
+        run.count(&format!("trust-off:{}:{}", c.token, if sdk_took_it { "used" } else { "refused" }));
+    }
     let nontrivial = !good || c.cert != "valid";
     let in_window = p.gen >= w.now + nb && p.gen <= w.now + na;
     let attr_differs = p.attr.map(|a| (a - p.gen).abs() > 2).unwrap_or(false);
@@ -994,8 +1002,8 @@ fn judge(run: &Run, w: &'static World, c: &Case) -> CaseResult {
             let only_extra_cred_failures = v0.1.iter().all(|f| v.1.contains(f))
                 && v.1.iter().filter(|f| !v0.1.contains(f)).all(|f| f.starts_with("signingCredential."))
                 && v.1.len() > v0.1.len();
-            let tsa_cert_class = c.token.starts_with("no_eku") || c.token == "untrusted" || c.token == "outside_tsa";
-            let sig = if tsa_cert_class && only_extra_cred_failures {
+            let tsa_problem = c.token.starts_with("no_eku") || c.token == "untrusted" || c.token == "outside_tsa";
+            let sig = if tsa_problem && only_extra_cred_failures {
                 // the TSA certificate's own profile failure is logged as a failure of the manifest
                 "C36:tsa-cert-failure-leaks-into-signing-credential-verdict".to_string()
             } else if o.accepted() && !o0.accepted() {
